@@ -41,7 +41,12 @@ def observe_suspended(w: progs.World, problems: List[str], records: List[dict], 
     got = [(ids.get(id(c.obj), "?" if c.obj is not None else None), c.is_async, c.is_exiting) for c in ctxs]
     want = [(mid, type(w.mgrs[mid]).__name__ == "AMgr", ex) for mid, ex in truth]
     ws = [str(x.message)[:160] for x in caught if issubclass(x.category, _IW)]
-    rec = {"lasti": w.frame.f_lasti, "got": got, "want": want, "warnings": ws}
+    try:
+        blocks = [[b.handler, b.level] for b in lowlevel.inspect_frame(w.frame).blocks]
+    except Exception as e:
+        blocks = None
+        problems.append(f"inspect_frame raised {type(e).__name__}: {e}")
+    rec = {"lasti": w.frame.f_lasti, "got": got, "want": want, "warnings": ws, "blocks": blocks}
     records.append(rec)
     if mode == "trickery":
         if got != want:
@@ -62,8 +67,8 @@ class C01(PropCheck):
             "exceptions; as generator, coroutine and async generator; 3 (quick) / 8 (thorough) choice lists each; every suspension "
             "point observed; non-trivial = some manager active at some observation; distinct = (program, choices)")
     manifest = {
-        "text": "Lean (M-A): C01_varint_roundtrip and C01_table_roundtrip (the decoder of co_exceptiontable inverts CPython's encoder for every entry list), C01_walk_chain (inspect_frame's bisect walk visits exactly the handlers an exception raised at the position would be handed to in turn, innermost first, and the reversed list is outermost first), C01_walk_terminates (on tables whose targets point forward the walk ends within |table| steps — no hang), C01_join (the context list is, in order, one entry per with-handler on the chain, taking stack[level-1].__self__ as obj, plus the exiting one last). That CPython's compiler only emits code on which this chain equals the set of entered-not-exited managers is NOT proved: it is measured on every run by executing generated programs under recorded choices and comparing with instrumented managers' event logs at every suspension point.",
-        "note": "Partial: the compiler-output half of the property (the abstract-stack certificate of DESIGN §3 M-C) is not built; CPython 3.12 only. Known finding F2 (with bodies ending in try/except, try/finally or a conditional return, being exited) is excluded from the oracle by its signature and replayed by its own witness.",
+        "text": "Lean (M-A, SSModel/ExcTable.lean): C01_varint_roundtrip / C01_varint_msb / C01_table_roundtrip (the decoder of co_exceptiontable inverts the assembler's encoding for every entry list and any sizes), C01_truncated_tail, C01_walk_chain (on a table with sorted, disjoint ranges inspect_frame's bisect walk is the same function as iterating the interpreter's own handler lookup from each handler's target: same blocks, same order), C01_walk_terminates (when handlers lie after the ranges they protect the loop ends within |table|+1 iterations) and C01_walk_cycle (a handler inside its own range makes the unguarded loop spin), C01_join_exact (the context list is one entry per with-handler of the chain, in chain order, exiting one last) and C01_join_fails_closed (a missing slot or a slot without __self__ fails the whole analysis: never a shorter or shifted list). Tie: every program's real co_exceptiontable bytes go through the model's decoder, re-encoder, walk at every observed f_lasti, and are compared with _parse_exception_table and inspect_frame(...).blocks; sortedness/disjointness (the theorems' hypothesis) is checked on every table. That CPython's compiler only emits code on which this chain equals the set of entered-not-exited managers is NOT proved: it is measured on every run by executing generated programs under recorded choices and comparing with instrumented managers' event logs at every suspension point.",
+        "note": "Partial: the compiler-output half of the property is measured, not proved; bisect.bisect_left is modelled by its contract on sorted input; CPython 3.12 only. F2 (with bodies ending in try/except, try/finally or a conditional return, being exited) was repaired in /repo; its witness still runs on every check.",
     }
     assumptions = ["co_exceptiontable format and the ceval handler lookup as in CPython 3.11/3.12", "the ctypes layout of _PyInterpreterFrame (checked by the module's own import-time asserts)"]
 
@@ -101,6 +106,15 @@ class C01(PropCheck):
         self._probs = probs
         self._recs = recs
         case["_obs"] = len(recs)
+        if w is not None and getattr(w, "frame", None) is not None:
+            case["_facts"] = progs.table_facts(w.frame.f_code)
+            seen = {}
+            for r in recs:
+                if r["blocks"] is not None:
+                    seen.setdefault(r["lasti"], r["blocks"])
+            case["_points"] = [(l, False, bl, None) for l, bl in sorted(seen.items())]
+            if not case["_facts"]["disjoint"]:
+                probs.append("the code object's exception table is not sorted / disjoint: the hypothesis of C01_walk_chain is not met")
         return json.dumps([[r["lasti"], r["got"]] for r in recs])
 
     def run_f2(self):
@@ -113,10 +127,14 @@ class C01(PropCheck):
         return json.dumps([[r["lasti"], r["got"], r["warnings"]] for r in recs])
 
     def model_line(self, case):
-        return None
+        if "_facts" not in case:
+            return None
+        return progs.table_model_line(case["_facts"], [(l, r) for l, r, _, _ in case["_points"]])
 
     def canon(self, case, real):
-        return real
+        if "_facts" not in case:
+            return real
+        return progs.table_expected(case["_facts"], case["_points"])
 
     def is_f2(self, p: str) -> bool:
         return ("couldn't find an exception table entry" in p or ("Inspection trickery failed" in p and "KeyError" in p))
@@ -139,7 +157,10 @@ class C01(PropCheck):
         return None
 
     def stats(self, cases, reals):
-        d = {"programs": len({(c.get("pseed"), c.get("kind")) for c in cases}), "runs": len(cases), "observations": 0, "by_kind": {}}
+        d = {"programs": len({(c.get("pseed"), c.get("kind")) for c in cases}), "runs": len(cases), "observations": 0, "by_kind": {},
+             "tables_compared": sum("_facts" in c for c in cases), "table_entries": sum(len(c["_facts"]["views"]) for c in cases if "_facts" in c),
+             "tables_not_forward": sum(not c["_facts"]["forward"] for c in cases if "_facts" in c),
+             "walks_compared": sum(len(c.get("_points", [])) for c in cases)}
         for c in cases:
             d["observations"] += c.get("_obs", 0)
             d["by_kind"][c.get("kind", "?")] = d["by_kind"].get(c.get("kind", "?"), 0) + 1
